@@ -26,6 +26,9 @@ type Oneway struct{}
 func (f Oneway) Handler(ctx context.Context, name string, args []interface{}, next core.NextInvokeHandler) (result []interface{}, err error) {
 	if c, ok := core.FromContext(ctx); ok && c.Items().GetBool("oneway") {
 		go func() {
+			// nobody waits for this call any more: a panic below must not take the
+			// process down with it
+			defer func() { _ = recover() }()
 			_, _ = next(ctx, name, args)
 		}()
 		return
